@@ -83,6 +83,10 @@ pub struct Pt {
 /// FRAME: the 62 frame vertices with tangent offsets, the 30 edge great circles and the 120
 /// symmetry lines with normal offsets.
 pub fn frame_points(dense: bool) -> Vec<Pt> {
+    frame_points_ladder(dense, if dense { 2 } else { 1 })
+}
+/// ladder: 0 = five fixed normal offsets, 1 = two rungs per decade, 2 = seven rungs per decade
+pub fn frame_points_ladder(dense: bool, ladder_level: u8) -> Vec<Pt> {
     let f = rg::frame();
     let mut out = Vec::new();
     let mut specials: Vec<V3> = f.centres.to_vec();
@@ -106,7 +110,21 @@ pub fn frame_points(dense: bool) -> Vec<Pt> {
         }
     }
     let nseg = if dense { 33 } else { 9 };
-    let noffs: &[f64] = if dense { &[0.0, 1e-13, -1e-13, 1e-9, -1e-9, 1e-6, -1e-6] } else { &[0.0, 1e-9, -1e-9, 1e-6, -1e-6] };
+    // geometric ladder: any band beside an edge or seam that is wider than a factor ~1.5 contains a rung
+    let mut ladder: Vec<f64> = vec![0.0];
+    let mants: &[f64] = if ladder_level >= 2 { &[1.0, 1.5, 2.0, 3.0, 4.0, 5.0, 7.0] } else { &[1.0, 4.0] };
+    if ladder_level == 0 {
+        ladder = vec![0.0, 1e-9, -1e-9, 1e-6, -1e-6];
+    }
+    let mut dec = 1e-13;
+    while dec < 2e-3 && ladder_level > 0 {
+        for m in mants {
+            ladder.push(m * dec);
+            ladder.push(-m * dec);
+        }
+        dec *= 10.0;
+    }
+    let noffs: &[f64] = &ladder;
     // dodecahedron edges: great circle between the two vertices adjacent to an edge midpoint
     for m in &f.midpoints {
         // the two frame vertices nearest to the midpoint
@@ -185,7 +203,7 @@ pub fn sphere_lonlat(n_fib: usize, dense: bool) -> Vec<(f64, f64, &'static str)>
         let (lon, lat) = rg::vec_to_ll(v);
         out.push((lon, lat, "uniform"));
     }
-    for p in frame_points(dense) {
+    for p in frame_points_ladder(dense, if dense { 1 } else { 0 }) {
         let (lon, lat) = rg::vec_to_ll(p.v);
         out.push((lon, lat, p.tag));
     }
